@@ -29,9 +29,9 @@ func VerifSelectRepoSet(shardRepos [][]*zoekt.Repository, q query.Q) ([]int, que
 	return out, q2
 }
 
-// VerifShardedSearcher returns the searcher stack of NewDirectorySearcher (typeRepoSearcher over the sharded
+// VerifShardedSearcherC18 returns the searcher stack of NewDirectorySearcher (typeRepoSearcher over the sharded
 // searcher) over already loaded shards, without a directory watcher.
-func VerifShardedSearcher(shards map[string]zoekt.Searcher) zoekt.Streamer {
+func VerifShardedSearcherC18(shards map[string]zoekt.Searcher) zoekt.Streamer {
 	ss := newShardedSearcher(int64(runtime.GOMAXPROCS(0)))
 	ss.replace(shards)
 	ss.markReady()
